@@ -47,7 +47,7 @@ func applyTrailers(expr ast.Expr, trailers []ast.Expr) ast.Expr {
 }
 
 // Set the context for expr
-func setCtx(yylex yyLexer, expr ast.Expr, ctx ast.ExprContext) {
+func setCtx(yylex yyLexer, expr ast.Expr, ctx ast.ExprContext) bool {
 	setctxer, ok := expr.(ast.SetCtxer)
 	if !ok {
 		expr_name := ""
@@ -86,9 +86,25 @@ func setCtx(yylex yyLexer, expr ast.Expr, ctx ast.ExprContext) {
 			action = "delete"
 		}
 		yylex.(*yyLex).SyntaxErrorf("can't %s %s", action, expr_name)
-		return
+		return false
+	}
+	// the elements of a tuple or list target have to be targets too
+	var elts []ast.Expr
+	switch x := expr.(type) {
+	case *ast.Tuple:
+		elts = x.Elts
+	case *ast.List:
+		elts = x.Elts
+	case *ast.Starred:
+		elts = []ast.Expr{x.Value}
+	}
+	for _, elt := range elts {
+		if !setCtx(yylex, elt, ctx) {
+			return false
+		}
 	}
 	setctxer.SetCtx(ctx)
+	return true
 }
 
 // Set the context for all the items in exprs
